@@ -637,8 +637,27 @@ func genC08(t *Tape) *Plan {
 		g.Subscribe(2)
 	}
 	// publisher holds back PUBREL
+	pubSubs := t.Draw("c08.pubsubs", 2) == 1
+	if pubSubs {
+		// the publisher is a subscriber too, never acknowledges what it receives, and numbers its own packets from 1
+		// like the broker numbers its deliveries to it: identifiers of the two directions meet, which must not
+		// disturb the record that recognises a retransmission
+		g.slots[0].nextPID = 0
+	}
 	ci := g.Connect(0)
 	g.plan.Ops[ci].AckMode = 3
+	if pubSubs {
+		si := g.Subscribe(0)
+		g.plan.Ops[si].Pkt.Filters = []refcodec.Filter{{Filter: "#", Opts: 1}}
+		g.plan.Ops[si].Pkt.Props = nil
+		if t.Draw("c08.pubsubs.first", 2) == 1 {
+			pi := g.Publish(1) // a delivery to the publisher before its own first publish
+			g.plan.Ops[pi].Pkt.Qos = 1
+			if g.plan.Ops[pi].Pkt.PacketID == 0 {
+				g.plan.Ops[pi].Pkt.PacketID = g.pid(1)
+			}
+		}
+	}
 	nmsg := 1 + t.Draw("c08.nmsg", 2)
 	for m := 0; m < nmsg; m++ {
 		pi := g.Publish(0)
@@ -656,6 +675,13 @@ func genC08(t *Tape) *Plan {
 			if t.Draw("c08.other", 3) == 0 {
 				g.Publish(1) // other clients' traffic in between
 				g.plan.Ops[len(g.plan.Ops)-1].Pkt.Qos = 0
+				if pubSubs { // ... which reaches the publisher as a QoS 1 delivery with an identifier of the broker's choosing
+					op := &g.plan.Ops[len(g.plan.Ops)-1]
+					op.Pkt.Qos = 1
+					if op.Pkt.PacketID == 0 {
+						op.Pkt.PacketID = g.pid(1)
+					}
+				}
 			}
 			cp := *orig
 			cp.Dup = true
